@@ -73,6 +73,26 @@ if d.get('visitor_methods') != ['visit_str'] or d.get('deserialize_call') != ['d
         or d.get('visit_str_body') != 'GenericPurl::<T>::from_str(v).map_err(Error::custom)':
     warn(f"serde impls differ from the modelled ones (Serialize = collect_str(self); Deserialize = deserialize_str + a visitor with visit_str = from_str only): "
          f"visitor {d.get('visitor_methods')}, deserialize {d.get('deserialize_call')}, serialize {d.get('serialize_call')}, visit_str body {d.get('visit_str_body')!r}", ['C16'])
+# the data types whose derived Eq / Hash / Ord the model transcribes (Exec.v: cmp_parts, cmp_g, cmp_t - lexicographic in declaration order; equality structural)
+CMP = {'Eq', 'Hash', 'Ord', 'PartialEq', 'PartialOrd'}
+EXP_SHAPES = {
+    'PurlParts': (CMP, ['pub namespace: SmallString', 'pub name: SmallString', 'pub version: SmallString', 'pub qualifiers: Qualifiers', 'pub subpath: SmallString']),
+    'GenericPurl': (CMP, ['package_type: T', 'parts: PurlParts']),
+    'Qualifiers': (CMP, ['qualifiers: Vec<(QualifierKey, SmallString)>']),
+    'PackageType': (CMP, ['Cargo', 'Gem', 'Golang', 'Maven', 'Npm', 'NuGet', 'PyPI']),
+    'QualifierKey': ({'Eq', 'Hash', 'Ord'}, ['SmallString']),
+}
+sh = d.get('shapes') or {}
+for name, (der, fields) in EXP_SHAPES.items():
+    got = sh.get(name)
+    if not got:
+        warn(f'definition of {name} not recognised', ['C19', 'C11']); continue
+    if set(got['derives']) & CMP != der:
+        warn(f"{name}: derived comparison/hash traits are {sorted(set(got['derives']) & CMP)}, the model transcribes {sorted(der)} as derived (structural, lexicographic in declaration order)", ['C19', 'C11'])
+    if got['fields'] != fields:
+        warn(f"{name}: fields/variants {got['fields']} differ from the modelled {fields} (derived Eq/Hash/Ord depend on them and on their order)", ['C19', 'C11'])
+if d.get('manual_impls') is not None and d.get('manual_impls') != ['PartialEq<S> for QualifierKey', 'PartialOrd<S> for QualifierKey']:
+    warn(f"hand-written comparison/hash impls are {d.get('manual_impls')}; the model knows PartialEq<S> and PartialOrd<S> for QualifierKey only", ['C19', 'C11'])
 if d.get('checksum_key') != ['checksum']: warn(f"Checksum::KEY is {d.get('checksum_key')}", ['C12', 'C04'])
 exp_typed = ['RepositoryUrl', 'DownloadUrl', 'VcsUrl', 'FileName', 'Platform', 'Classifier', 'Type']
 tk = d.get('typed_keys') or []
